@@ -138,8 +138,35 @@ def check(case):
                 return f
             if not (d == l) or not (l == d) or hash(d) != hash(l):
                 return Fail(f'equality/derived-not-equal/{name}', f'node {k}')
-    # the builder a cell came from keeps being used (cells sharing a prefix): the finished cell must stay what it was
+    # "converted from a slice" - also from a slice that has been read from: the cell is what the slice still holds
     from pytoniq_core.boc.builder import Builder
+    pos0 = {id(c): i for i, c in enumerate(cells)}
+    for k in picks:
+        r, l = cells[k], lib[k]
+        nb, nr = len(r.bits), len(r.refs)
+        for j, q in sorted({(0, nr), (min(3, nb), min(1, nr)), (nb, nr), (min(1, nb), 0), (nb // 2, max(0, nr - 1))}):
+            if (j, q) == (0, 0):
+                continue
+            rest = rc.RCell(r.bits[j:], list(r.refs[q:]), False)
+
+            def _consumed():
+                s = l.begin_parse()
+                if j:
+                    s.load_bits(j)
+                for _ in range(q):
+                    s.load_ref()
+                return s
+            for name, thunk in (('to_cell', lambda: _consumed().to_cell()),
+                                ('copy.to_cell', lambda: _consumed().copy().to_cell()),
+                                ('to_builder.end_cell', lambda: _consumed().to_builder().end_cell()),
+                                ('store_slice', lambda: Builder().store_slice(_consumed()).end_cell())):
+                ok, d = call(thunk)
+                if not ok:
+                    return Fail(f'derive-raises/consumed-slice.{name}', f'{exc_sig(d)}: {d!r} after {j} bits, {q} refs')
+                f = node_problem(rest, d, f'{route}+consumed-slice.{name}' + ('/all-refs-read' if q == nr and nr else ''))
+                if f:
+                    return Fail(f.signature, f'{f.detail} (slice of a cell with {nb} bits / {nr} refs after reading {j} bits, {q} refs)')
+    # the builder a cell came from keeps being used (cells sharing a prefix): the finished cell must stay what it was
     pos = {id(c): i for i, c in enumerate(cells)}
     for k in picks:
         r = cells[k]
@@ -231,6 +258,51 @@ def check(case):
     return None
 
 
+def check_eq_levels(case):
+    """== and hash() over cells of every level: an ordinary cell above a pruned branch, the pruned branch and the sub-tree it
+    stands for, Merkle cells - equal exactly when the REPORTED hashes (.hash, the representation hash) are equal"""
+    spec = list(case['spec'])
+    t = case['t'] % len(spec)
+    n0 = len(spec)
+    remap = {t: n0}
+    spec.append({'k': 'p', 'of': t, 'x': case['x']})
+    for k in range(t + 1, n0):
+        nd = spec[k]
+        if nd['k'] == 'o' and any(i in remap for i in nd['r']):
+            remap[k] = len(spec)
+            spec.append({'k': 'o', 'b': nd['b'], 'r': [remap.get(i, i) for i in nd['r']]})
+    cells = dag.build_ref(spec)
+    ok, lib = call(dag.lib_from_ref, cells, 'builder')
+    if not ok:
+        return None                                   # constructing exotic cells is C02's business
+    hs = [c.repr_hash() for c in cells]
+    idxs = sorted(set(list(remap) + list(remap.values()) + list(range(max(0, n0 - 4), n0))))[-14:]
+    for a in idxs:
+        if lib[a].hash != hs[a]:
+            return None                               # wrong hashes of exotic cells: C02
+        for b in idxs:
+            ok, eq = call(lambda: lib[a] == lib[b])
+            if not ok:
+                return Fail('equality/raises', repr(eq))
+            what = 'pruned-twin' if remap.get(a) == b or remap.get(b) == a else 'other'
+            if bool(eq) != (hs[a] == hs[b]):
+                return Fail(f'equality/not-iff-hash-equal/level>0/{what}', f'nodes {a} ({spec[a]["k"]}, level mask {cells[a].mask()}) and {b} '
+                            f'({spec[b]["k"]}, level mask {cells[b].mask()}): == gives {eq}, reported hashes equal: {hs[a] == hs[b]}')
+            if hs[a] == hs[b] and hash(lib[a]) != hash(lib[b]):
+                return Fail('equality/equal-cells-hash-differently/level>0', f'nodes {a},{b}')
+    ok, sz = call(lambda: (len({lib[i] for i in idxs}), len({lib[i]: i for i in idxs})))
+    if not ok:
+        return Fail('equality/cells-unusable-as-keys', repr(sz))
+    exp = len({hs[i] for i in idxs})
+    if sz != (exp, exp):
+        return Fail('equality/dict-collapse/level>0', f'set/dict sizes {sz}, distinct reported hashes {exp}')
+    return None
+
+
+def strat_eq_levels(tier):
+    return st.fixed_dictionaries({'spec': dag.st_ord_dag(max_nodes=10, max_len=64), 't': st.integers(0, 9), 'x': st.integers(0, 2)})
+
+
 def check_twins(case):
     """an ordinary cell that has the shape (bit length, reference count) of an exotic cell created earlier in the same process"""
     from pytoniq_core.boc.builder import Builder
@@ -301,7 +373,7 @@ def strat(tier):
 
 
 def strat_plain(tier):
-    return st.fixed_dictionaries({'spec': dag.st_ord_dag(max_nodes=6), 'route': st.just('plain')})
+    return st.fixed_dictionaries({'spec': dag.st_ord_dag(max_nodes=6), 'route': st.sampled_from(['plain', 'plain-le'])})
 
 
 def classify(case):
@@ -333,5 +405,8 @@ SUBCHECKS = [
     Sub('deep-chains', check, enum=enum_chains, classify=classify, nontrivial=nt, shards=(8, 8), case_cpu_s=120,
         note='chains and doubling ladders of depth 1000..1023'),
     Sub('dags', check, strategy=strat, classify=classify, nontrivial=nt, n=(2000, 60000), shards=(16, 32)),
+    Sub('equality-across-levels', check_eq_levels, strategy=strat_eq_levels, n=(600, 10000), shards=(4, 16),
+        classify=lambda c: ['nodes=%d' % len(c['spec'])], nontrivial=lambda c: True,
+        note='a DAG, the pruned branch of one of its nodes and the clones of that node\'s ancestors over the pruned branch'),
     Sub('plain-bitarray-route', check, strategy=strat_plain, classify=classify, nontrivial=nt, n=(600, 10000), shards=(4, 16)),
 ]
